@@ -1,65 +1,227 @@
-use gmsol_utils::price::{find_divisor_decimals, Decimal, U192};
+//! C26, Kani side (2): `find_divisor_decimals` / BOUNDS table, `Decimal::to_unit_price` /
+//! `with_unit_price` for every multiplier, and the exponent handling of
+//! `pyth_price_value_to_decimal`. The triple-wise `try_from_price` harnesses are in `c26_triples.rs`.
+use gmsol_utils::oracle::pyth_price_value_to_decimal;
+use gmsol_utils::price::{find_divisor_decimals, Decimal, DecimalError, U192};
+use gmsol_utils::token_config::TokenConfig;
 
-const POW10: [u128; 21] = [
-    1, 10, 100, 1_000, 10_000, 100_000, 1_000_000, 10_000_000, 100_000_000, 1_000_000_000,
-    10_000_000_000, 100_000_000_000, 1_000_000_000_000, 10_000_000_000_000, 100_000_000_000_000,
-    1_000_000_000_000_000, 10_000_000_000_000_000, 100_000_000_000_000_000,
-    1_000_000_000_000_000_000, 10_000_000_000_000_000_000, 100_000_000_000_000_000_000,
-];
+use crate::c26_triples::POW10;
 
-//@ prop=C26 tier=experimental kind=hold
-//@ enc=Decimal::try_from_price, Decimal::decimal_multiplier_from_precision, u128::pow, Decimal::to_unit_price
-//@ bound=price < 2^24, every (decimals, token_decimals, precision) in 0..=255 each (valid and invalid triples); exact value = floor(price*10^precision/10^decimals) computed from a constant power table; unwind 7 (u128::pow square-and-multiply on exponents <= 40)
+/// `u128::MAX * 10^k` as (top 64 bits, low 128 bits), `k <= 19`, computed here independently of the
+/// table in the code: `(2^128 - 1) * p = (p - 1) * 2^128 + (2^128 - p)`.
+const fn bound(k: u32) -> (u64, u128) {
+    let p = 10u128.pow(k);
+    ((p - 1) as u64, 0u128.wrapping_sub(p))
+}
+
+fn le(a: (u64, u128), b: (u64, u128)) -> bool {
+    a.0 < b.0 || (a.0 == b.0 && a.1 <= b.1)
+}
+
+//@ prop=C26 tier=quick kind=hold
+//@ enc=gmsol_utils::price::find_divisor_decimals, get_power_bounds (the BOUNDS table), <[U192]>::binary_search, ruint::algorithms::cmp
+//@ bound=EVERY U192 value; the result k is checked to be the least exponent with n <= u128::MAX * 10^k for all 21 outcomes (bounds recomputed in the harness from 10^k, not read from the table); unwind 8 (binary search over 20 entries, 3-limb comparison)
 #[kani::proof]
-#[kani::unwind(7)]
-fn c26_try_from_price_small() {
-    let price: u32 = kani::any();
-    kani::assume(price < (1 << 24));
-    let (d, t, p): (u8, u8, u8) = (kani::any(), kani::any(), kani::any());
-    let r = Decimal::try_from_price(price as u128, d, t, p);
-    let valid = d <= 20 && t <= 20 && p <= 20 && (t as u16 + p as u16) <= 20;
-    match r {
-        Ok(dec) => {
-            assert!(valid, "C26: unsupported decimal settings accepted");
-            assert!(dec.decimal_multiplier == 20 - t - p, "C26: wrong decimal multiplier");
-            // exact: value = floor(price * 10^p / 10^d); price*10^p < 2^24 * 10^20 < 2^91
-            let exact = price as u128 * POW10[p as usize] / POW10[d as usize];
-            assert!(dec.value as u128 == exact, "C26: stored value is not the exact truncation");
-            // unit price never exceeds the exact unit price and is off by less than one step
-            let step = POW10[dec.decimal_multiplier as usize];
-            assert!(dec.to_unit_price() == exact * step);
-            kani::cover!(exact > 0 && d > p, "truncating conversion");
+#[kani::unwind(8)]
+fn c26_find_divisor_decimals_exact() {
+    let limbs: [u64; 3] = kani::any();
+    let n = U192::from_limbs(limbs);
+    let v = (limbs[2], ((limbs[1] as u128) << 64) | limbs[0] as u128);
+    let k = find_divisor_decimals(&n) as u32;
+    assert!(k <= 20, "C26: divisor decimals above 20");
+    // least k with n <= u128::MAX * 10^k  (k = 20: above every bound)
+    if k < 20 {
+        assert!(le(v, bound(k)), "C26: value exceeds u128::MAX * 10^k");
+    }
+    if k > 0 {
+        assert!(!le(v, bound(k - 1)), "C26: a smaller divisor exponent suffices");
+    }
+    kani::cover!(k == 0, "fits u128");
+    kani::cover!(k == 1 && limbs[2] == 9, "top of the 10^1 range");
+    kani::cover!(k == 19, "largest in-table exponent");
+    kani::cover!(k == 20, "above the whole table");
+}
+
+/// `Decimal::to_unit_price` / `with_unit_price` for one concrete multiplier `m` and EVERY u32 value /
+/// threshold-classified u128 price.
+fn unit_price(m: u8) {
+    let step = POW10[m as usize];
+    let value: u32 = kani::any();
+    let d = Decimal { value, decimal_multiplier: m };
+    let up = d.to_unit_price(); // Kani: no overflow for m <= 20
+    assert!(up == value as u128 * step, "C26: unit price is not value * 10^multiplier");
+    // with_unit_price keeps the multiplier; None exactly when the (rounded) quotient exceeds u32
+    let price: u128 = kani::any();
+    match d.with_unit_price(price, false) {
+        Some(r) => {
+            assert!(r.decimal_multiplier == m, "C26: multiplier changed");
+            assert!(price < (1u128 << 32) * step, "C26: floor quotient above u32 accepted");
         }
-        Err(_) => {
-            if valid {
-                let exact = price as u128 * POW10[p as usize] / POW10[d as usize];
-                // with price < 2^24 no u128 intermediate can overflow (price*10^20*10^20 < 2^157 can!):
-                // the code multiplies by 10^(t-d) and then by 10^(p-t) when t <= p; both products stay
-                // below 2^24*10^20 < 2^128 because the exponents add up to p-d <= 20.
-                assert!(exact > u32::MAX as u128, "C26: representable price rejected");
-            }
-            kani::cover!(valid, "valid settings, unrepresentable price");
+        None => assert!(price >= (1u128 << 32) * step, "C26: representable unit price rejected (floor)"),
+    }
+    match d.with_unit_price(price, true) {
+        Some(r) => {
+            assert!(r.decimal_multiplier == m, "C26: multiplier changed");
+            assert!(price <= (u32::MAX as u128) * step, "C26: ceil quotient above u32 accepted");
         }
+        None => assert!(price > (u32::MAX as u128) * step, "C26: representable unit price rejected (ceil)"),
+    }
+}
+
+/// Window exactness of `with_unit_price` for a concrete quotient `v` and EVERY remainder.
+fn unit_price_window(m: u8, v: u32) {
+    let step = POW10[m as usize];
+    let d = Decimal { value: 0, decimal_multiplier: m };
+    let price: u128 = kani::any();
+    kani::assume(price >= v as u128 * step && price - v as u128 * step < step);
+    // floor: v for the whole window
+    assert!(d.with_unit_price(price, false) == Some(Decimal { value: v, decimal_multiplier: m }), "C26: floor is not the truncation");
+    // ceil: v at the left end, v + 1 inside (None when v + 1 does not fit)
+    let c = d.with_unit_price(price, true);
+    if price == v as u128 * step {
+        assert!(c == Some(Decimal { value: v, decimal_multiplier: m }), "C26: ceil of an exact multiple changed it");
+    } else if v < u32::MAX {
+        assert!(c == Some(Decimal { value: v + 1, decimal_multiplier: m }), "C26: ceil is not the next step");
+    } else {
+        assert!(c.is_none(), "C26: ceil above u32 accepted");
     }
 }
 
 //@ prop=C26 tier=quick kind=hold
-//@ enc=gmsol_utils::price::find_divisor_decimals, get_power_bounds
-//@ bound=every U192 value; unwind 8 (binary search over 20 bounds)
+//@ enc=gmsol_utils::price::Decimal::{to_unit_price, with_unit_price, multiplier}, u128::pow, u128::div_ceil
+//@ bound=EVERY multiplier 0..=20 (enumerated), EVERY u32 value, EVERY u128 price for the Some/None classification; unwind 7
 #[kani::proof]
-#[kani::unwind(8)]
-fn c26_find_divisor_decimals() {
-    let limbs: [u64; 3] = kani::any();
-    let n = U192::from_limbs(limbs);
-    let k = find_divisor_decimals(&n);
-    assert!(k <= 20);
-    // k is the least exponent with n <= u128::MAX * 10^k  <=>  limb-wise comparison against bounds
-    // Equivalent check without 192-bit multiplication: k == 0 <=> n fits u128.
-    assert!((k == 0) == (limbs[2] == 0), "C26: divisor decimals zero iff the value fits 128 bits");
-    // monotone in n: a bigger top limb never needs fewer decimals
-    let limbs2: [u64; 3] = kani::any();
-    kani::assume(limbs2[2] > limbs[2]);
-    let k2 = find_divisor_decimals(&U192::from_limbs(limbs2));
-    assert!(k2 >= k, "C26: divisor decimals not monotone");
-    kani::cover!(k == 20, "maximum divisor");
+#[kani::unwind(7)]
+fn c26_unit_price_all_multipliers() {
+    unit_price(0);
+    unit_price(1);
+    unit_price(2);
+    unit_price(3);
+    unit_price(4);
+    unit_price(5);
+    unit_price(6);
+    unit_price(7);
+    unit_price(8);
+    unit_price(9);
+    unit_price(10);
+    unit_price(11);
+    unit_price(12);
+    unit_price(13);
+    unit_price(14);
+    unit_price(15);
+    unit_price(16);
+    unit_price(17);
+    unit_price(18);
+    unit_price(19);
+    unit_price(20);
+}
+
+//@ prop=C26 tier=quick kind=hold
+//@ enc=gmsol_utils::price::Decimal::with_unit_price (floor and ceil), u128::div_ceil
+//@ bound=multipliers {0,1,8,10,20}; quotients v in {0,1,9,4999,0x55555555,2^32-2,2^32-1}; EVERY price in [v*10^m, (v+1)*10^m); unwind 7
+#[kani::proof]
+#[kani::unwind(7)]
+fn c26_with_unit_price_windows() {
+    let ms: [u8; 5] = [0, 1, 8, 10, 20];
+    let vs: [u32; 7] = [0, 1, 9, 4_999, 0x5555_5555, u32::MAX - 1, u32::MAX];
+    let mut i = 0;
+    while i < 5 {
+        let mut j = 0;
+        while j < 7 {
+            unit_price_window(ms[i], vs[j]);
+            j += 1;
+        }
+        i += 1;
+    }
+}
+
+// ---- pyth exponent handling -----------------------------------------------------------------
+
+static mut SEEN: Option<(u128, u8, u8, u8)> = None;
+static mut ANSWER_OK: bool = false;
+
+/// Recording replacement of `Decimal::try_from_price` (its own contract is decided by the other C26
+/// harnesses): remembers the arguments and answers Ok/Err as drawn by the harness.
+fn try_from_price_probe(price: u128, decimals: u8, token_decimals: u8, precision: u8) -> Result<Decimal, DecimalError> {
+    unsafe {
+        SEEN = Some((price, decimals, token_decimals, precision));
+        if ANSWER_OK {
+            Ok(Decimal { value: 7, decimal_multiplier: 3 })
+        } else {
+            Err(DecimalError::Overflow)
+        }
+    }
+}
+
+fn token_config(tdec: u8, prec: u8) -> TokenConfig {
+    let mut c: TokenConfig = bytemuck::Zeroable::zeroed();
+    c.token_decimals = tdec;
+    c.precision = prec;
+    c
+}
+
+fn pyth_exponent(exponent: i32) {
+    let value: u64 = kani::any();
+    let (tdec, prec): (u8, u8) = (kani::any(), kani::any());
+    let ok: bool = kani::any();
+    unsafe {
+        SEEN = None;
+        ANSWER_OK = ok;
+    }
+    let cfg = token_config(tdec, prec);
+    let r = pyth_price_value_to_decimal(value, exponent, &cfg);
+    let seen = unsafe { SEEN };
+    // actual price = value * 10^exponent. What must reach try_from_price:
+    //   exponent <= 0: (value, decimals = -exponent) if -exponent fits u8, else Err without a call
+    //   exponent  > 0: (value * 10^exponent, decimals = 0) if that fits u64, else Err without a call
+    let expect: Option<(u128, u8)> = if exponent <= 0 {
+        let e = -(exponent as i64);
+        if e <= 255 { Some((value as u128, e as u8)) } else { None }
+    } else if exponent <= 19 {
+        let p = value as u128 * POW10[exponent as usize];
+        if p <= u64::MAX as u128 { Some((p, 0)) } else { None }
+    } else {
+        None
+    };
+    match expect {
+        Some((p, dec)) => {
+            assert!(seen == Some((p, dec, tdec, prec)), "C26: wrong price / decimals / token settings handed to try_from_price");
+            assert!(r.is_ok() == ok, "C26: result of try_from_price not propagated");
+            if let Ok(d) = &r {
+                assert!(d.value == 7 && d.decimal_multiplier == 3, "C26: converted decimal altered");
+            }
+        }
+        None => {
+            assert!(seen.is_none() && r.is_err(), "C26: unrepresentable exponent / overflowing price not reported as an error");
+        }
+    }
+    std::mem::forget(r);
+}
+
+//@ prop=C26 tier=quick kind=hold
+//@ enc=gmsol_utils::oracle::pyth_price_value_to_decimal, u64::checked_pow, u64::checked_mul, TokenConfig::{token_decimals, precision}
+//@ bound=EVERY u64 value, EVERY i32 exponent except i32::MIN (see c26_pyth_exponent_min), EVERY u8 token_decimals / precision; unwind 34 (u64::checked_pow on a u32 exponent)
+//@ stubs=Decimal::try_from_price replaced by a recording probe (arguments compared with the exact expectation; its own contract is decided by the other C26 harnesses / mir2smt)
+#[kani::proof]
+#[kani::stub(gmsol_utils::price::decimal::Decimal::try_from_price, try_from_price_probe)]
+#[kani::unwind(34)]
+fn c26_pyth_exponent_handling() {
+    let exponent: i32 = kani::any();
+    kani::assume(exponent != i32::MIN);
+    pyth_exponent(exponent);
+    kani::cover!(exponent == -255, "smallest exponent whose negation fits u8");
+    kani::cover!(exponent == -256, "exponent too small");
+    kani::cover!(exponent == 19, "largest power of ten that fits u64");
+    kani::cover!(exponent == 20, "exponent too big");
+}
+
+//@ prop=C26 tier=quick kind=hold
+//@ enc=gmsol_utils::oracle::pyth_price_value_to_decimal
+//@ bound=exponent = i32::MIN, EVERY u64 value and token settings: must be an error, not a panic (`-exponent` overflows i32; the workspace release profile has overflow-checks = true)
+//@ stubs=Decimal::try_from_price replaced by the recording probe
+#[kani::proof]
+#[kani::stub(gmsol_utils::price::decimal::Decimal::try_from_price, try_from_price_probe)]
+#[kani::unwind(34)]
+fn c26_pyth_exponent_min() {
+    pyth_exponent(i32::MIN);
 }
